@@ -764,3 +764,9 @@ where
         marker: PhantomData,
     }
 }
+
+/// Verification hook: forwards to the private `get_locale_from_path`.
+#[cfg(feature = "verif_hooks")]
+pub fn verif_get_locale_from_path<L: Locale>(path: &str, base_path: &str) -> Option<L> {
+    get_locale_from_path(path, base_path)
+}
